@@ -135,7 +135,8 @@ func c01CheckRecord(w *core.W, r *model.Rec, tag string) {
 	// (b) octets -> struct
 	var rr2 dns.RR
 	var off int
-	if w.Guard("UnpackRR", wit, func() { rr2, off, err = dns.UnpackRR(wire, 0) }) {
+	in := append([]byte(nil), wire...) // the receive buffer: reused by the caller after UnpackRR
+	if w.Guard("UnpackRR", wit, func() { rr2, off, err = dns.UnpackRR(in, 0) }) {
 		return
 	}
 	if err != nil {
@@ -147,6 +148,15 @@ func c01CheckRecord(w *core.W, r *model.Rec, tag string) {
 	}
 	if d := bridge.Diff(built, rr2); d != "" {
 		w.Violation("C01/unpack-diff/"+tn+"/"+diffField(d)+c01Class(r, nil), "decoded struct differs from the source (source vs decoded) at "+d, wit)
+	} else {
+		// the decoded value must not depend on the input buffer any more: the buffer is overwritten
+		// (next packet in a pooled read buffer) before the record is packed again
+		for i := range in {
+			in[i] ^= 0xA5
+		}
+		if d := bridge.Diff(built, rr2); d != "" {
+			w.Violation("C01/decoded-aliases-input/"+tn+"/"+diffField(d), "after the input buffer was overwritten the decoded record changed at "+d, wit)
+		}
 	}
 	// (c) octets -> struct -> octets
 	var again []byte
@@ -343,8 +353,12 @@ func c01Messages(w *core.W, j int) {
 			w.Violation("C01/msg-pack-mismatch"+cls, "Msg.Pack differs from the RFC layout: "+diffWin(packed, wire), wit)
 		}
 		m2 := new(dns.Msg)
-		if w.Guard("Msg.Unpack", wit, func() { err = m2.Unpack(wire) }) {
+		in := append([]byte(nil), wire...)
+		if w.Guard("Msg.Unpack", wit, func() { err = m2.Unpack(in) }) {
 			continue
+		}
+		for i := range in { // the caller reuses its receive buffer
+			in[i] ^= 0xA5
 		}
 		if err != nil {
 			w.Violation("C01/msg-unpack-error"+cls, fmt.Sprintf("Msg.Unpack failed on a well-formed message: %v", err), wit)
